@@ -73,6 +73,22 @@ def gen_cases(rng, n, tier):
                         'expect': [N.exp_big(v), 'b|1'], 'tag': 'new', 'desc': 'BigNum::new(%d)' % v,
                         'tags': ['new>=2^32'] if abs(v) >= 2 ** 32 else [], 'trivial': abs(v) < 2 ** 31})
             continue
+        if rng.random() < 0.03:
+            # BOTH operands are the same object (x op x through one register): squaring, x - x, x / x, gcd(x, x), x == x
+            x = N.rand_int(rng, maxl)
+            op2 = rng.choice(['mul', 'mul', 'mul', 'add', 'sub', 'div', 'rem', 'eq', 'cmp'])
+            if x == 0 and op2 in ('div', 'rem'):
+                op2 = 'mul'
+            if op2 in ('eq', 'cmp'):
+                script, expect = '%s sto @0 @0 b%s out' % (N.limbs_tok(x), op2), ['b|1' if op2 == 'eq' else 'o|E']
+            else:
+                v = {'mul': x * x, 'add': 2 * x, 'sub': 0, 'div': 1, 'rem': 0}[op2]
+                script, expect = '%s sto @0 @0 b%s dup %s beq out bispos out @0 out' % (N.limbs_tok(x), op2, N.limbs_tok(v)), ['b|1', 'b|%d' % (1 if v >= 0 else 0), N.exp_big(x)]
+                if abs(x).bit_length() > 32 * 8:
+                    script, expect = script[:-len(' @0 out')], expect[:-1]
+            out.append({'script': script, 'expect': expect, 'tag': 'arith', 'tags': ['aliased_operands', 'op:' + op2],
+                        'desc': '%s with both operands the same object' % op2, 'trivial': False})
+            continue
         if rng.random() < 0.04:
             # object history: the same BigNum objects observed and mutated in place again and again (see numlib.big_history)
             out.append(N.big_history(rng, maxl=min(maxl, 6)))
@@ -179,7 +195,7 @@ def main(tier, seed):
     cov.update(extra)
     assumptions = ['Python int is the oracle', 'operands built with BigNum::from_vec + minus(), never parsed from decimal text',
                    'harness built with opt-level 2 but overflow checks and debug assertions ON; division operands capped at %d limbs (cubic cost)' % (8 if tier == 'quick' else 12)]
-    minimum = {'evaluations': (n, 5000), 'object histories': (hist.get('object_history', 0), 300), 'very long operands': (hist.get('very_long_operands', 0), 100), 'op:div': (hist.get('op:div', 0), 200), 'new': (hist.get('new', 0), 100)}
+    minimum = {'evaluations': (n, 5000), 'aliased operands': (hist.get('aliased_operands', 0), 300), 'object histories': (hist.get('object_history', 0), 300), 'very long operands': (hist.get('very_long_operands', 0), 100), 'op:div': (hist.get('op:div', 0), 200), 'new': (hist.get('new', 0), 100)}
     return rep.finish(cov, assumptions, t0, minimum)
 
 
